@@ -15,8 +15,10 @@ def check(model, R, tier):
     sub = _Sub(R, 'C03.SUM-OVER-PATHS')
     R.rule('C03.SUM-OVER-PATHS', 'every op adds (+=) its contribution into each operand\'s buffer, once per operand position, guarded by that operand\'s requires_grad; '
                                  'list ops accumulate over all inputs; multi-output closures carry their own index', floor=48)
+    from sa.rules_flags import check_flags
+    for mod in ('synapgrad.functional', 'synapgrad.nn.functional'):
+        check_flags(model, R, 'C03', mod, rules=('COVER',), names={'COVER': 'C03.SUM-OVER-PATHS'}, declare=False)
     T.check_ops(model, sub, ops, 'C03x')
-    T.check_prop_attach(model, sub, [o for o in ops if o.multi_output], 'C03x')
     R.analysed['ops'] = len(ops)
     return dict(
         explanation='Decides the code-shape part of the chain rule on DAGs: Tensor.backward builds a post-order (topological) list with a visited test-and-mark and sweeps it '
@@ -35,7 +37,7 @@ class _Sub:
         pass
 
     def ob(self, rule, where, construct, ok, detail='', loc=''):
-        if rule.endswith('.ACC') or rule.endswith('.BIND') or rule.endswith('.ATTACH'):
+        if rule.endswith('.ACC') or rule.endswith('.BIND'):
             return self.R.ob(self.rulename, where, construct, ok, detail, loc)
         return ok
 
